@@ -12,7 +12,7 @@ d=$(mktemp -d /tmp/catverif_setup.XXXXXX)
 trap 'rm -rf "$d"' EXIT
 gcc -w -O1 -I harness harness/k_snprintf.c -o "$d/ksn"
 "$d/ksn" --sample 1 1 | grep -q "checkfail=0" || { echo "setup: libc disagrees with the snprintf validation table"; exit 1; }
-cbmc -I harness harness/k_snprintf.c --no-standard-checks --unwinding-assertions --unwind 66 --drop-unused-functions --slice-formula > "$d/ksn.log" 2>&1 \
+cbmc -I harness -DNO_WITNESS harness/k_snprintf.c --no-standard-checks --unwinding-assertions --unwind 66 --drop-unused-functions --slice-formula > "$d/ksn.log" 2>&1 \
   || { echo "setup: snprintf model disagrees with the validation table"; tail -5 "$d/ksn.log"; exit 1; }
 python3 -c "import sys; sys.path.insert(0,'lib'); import vlib, jobs; print('setup: job tables ok:', sum(len(jobs.jobs_for(p,'quick')) for p in jobs.REGISTRY), 'quick jobs')"
 mkdir -p evidence replays
